@@ -282,7 +282,13 @@ def observe_all(job):
         if not (isinstance(res1, dictable) and p1['kind'] == 'table' and len({json.dumps(r['key']) for r in p1['rows']}) == len(p1['rows'])):
             return history                   # nothing that could be handed on as previously computed values
         else:
-            data_obj = res1
+            # what is handed back: the object itself, or the same rows in another order (a cache need not be sorted)
+            order = list(range(len(res1)))
+            if form.get('dataorder', 0) % 3 == 1:
+                order.reverse()
+            elif form.get('dataorder', 0) % 3 == 2:
+                rng.shuffle(order)
+            data_obj = res1 if form.get('dataorder', 0) % 3 == 0 else res1[order]
             # the rows of the real object: its keys are spelt as they came back (sp 0 = "as returned")
             rows = sorted([dict(r, sp=0) for r in p1['rows']], key=lambda r: r['key'])
             plan = job['plan']
@@ -346,7 +352,7 @@ def mk_form(rng, c, spelled=None, first=None):
             'sig': rng.randrange(n + 1), 'keycols': rng.choice(['shuffle', 'same', 'reverse'])}
     form['menu'] = int(rng.random() < 0.2) if spelled is None else int(spelled)
     form['on'] = rng.randrange(24) if form['menu'] else form['on']
-    form['spsalt'], form['respell'] = rng.randrange(1 << 20), rng.randrange(3)
+    form['spsalt'], form['respell'], form['dataorder'] = rng.randrange(1 << 20), rng.randrange(3), rng.randrange(3)
     return with_extent(form, *([c] if first is None else [first, c]))
 
 
@@ -628,12 +634,18 @@ def run(ctx):
     ctx.rule = ('S2C: every configuration TLC enumerates (quick: 1-2 inputs over 2-3 keys on 1-2 key columns with every assignment of '
                 'not-computed / absent / past / future / None expiry to the keys, all 1-3-input overlap/default patterns without cache - the '
                 '3-input ones as a seeded sample of 1500; thorough: all of them, 4 inputs, 3 inputs with cache; value styles distinct / all equal / '
-                'previously computed pairs) replayed through perdictable(F, on=...)(inputs, data, expiry) and join(inputs, on, renames, defaults) '
-                'in a randomly drawn rendering (key column names/types/order, value column naming, row and column order, how "absent" is spelt), '
+                'previously computed pairs; gen_spell*: additionally every way - up to renaming - in which the inputs, the previously computed '
+                'values and the expiries share or do not share the objects that spell their keys, 2-3 classes) replayed through '
+                'perdictable(F, on=...)(inputs, data, expiry) and join(inputs, on, renames, defaults) '
+                'in a randomly drawn rendering (key column names/types/order, value column naming, row and column order, how "absent" is spelt; '
+                'one rendering in five and every rendering of a respelt configuration on key columns with several spellings per key: int / float / '
+                'numpy scalars, the greatest key NaN, the least key None, datetime / date / datetime64 - one Python object per (key, spelling)), '
                 'compared with == against the outcomes TLC printed (rows in order, bag of recorded calls).  C2S: random configurations (up to 14 '
-                'keys, two key columns, 4 inputs, colliding values, cached pairs/lists/dicts) and chained calls (the object returned by a first '
-                'call handed back as `data`) validated by Trace_Perdictable.  Non-trivial = at least one table input and a result with at least '
-                'one row; distinct by (abstract configuration, api).')
+                'keys, two key columns, 4 inputs, colliding values, cached pairs/lists/dicts, keys respelt per table or per cell) and chained calls '
+                '(both calls are observations; the object returned by the first one - or its rows in another order - handed back as `data`, on the '
+                'same or on new key objects) validated by Trace_Perdictable.  A result is always judged by content, also when it is the very '
+                'object passed as `data`.  Non-trivial = at least one table input and a result with at least '
+                'one row; distinct by (abstract configuration incl. spelling, api).')
     q = ctx.quick
     import time
     t0, c0 = time.time(), time.process_time()
@@ -642,6 +654,9 @@ def run(ctx):
     # outside the quantifier (a past expiry on a key that was NOT computed before, next to other cached keys) the
     # code's gating, as modelled, leaves the row uncomputed: documented, not judged
     ctx.mc('MC_Perdictable', 'MC_Perdictable_beyond.cfg', must_fail='ComputedRows', coverage=False, workers=1)
+    # why the spellings of the keys are enumerated: the join's mechanism on the key cells is the law when cells are matched by
+    # rank (CellsJoinIsLaw, CacheJoinIsLaw above) and is NOT when the keys a defaulted input lacks are looked up as objects
+    ctx.mc('MC_Perdictable', 'MC_Perdictable_identity.cfg', must_fail='ObjectLookupIsLaw', coverage=False, workers=1)
     if q:
         cases = sorted(ctx.generate('MC_Perdictable', 'MC_Perdictable_gen_quick.cfg'), key=canon)
         wide = [c for c in cases if c['size'][:3] == [3, 3, 1]]              # 3 inputs over 3 keys: a seeded sample in the quick tier
@@ -662,9 +677,12 @@ def run(ctx):
     ctx.extra['violation_breakdown'] = brk
     ctx.assumptions += [
         'small-scope: MC/S2C use 3 keys (one key column: 1,2,3; two key columns: (1,2),(2,1),(1,1)), 1-4 inputs; C2S up to 14 keys, 4 inputs',
-        'keys are rendered by strictly monotone maps (int, "x%03d" string, date) so that "sorted by key" is the integer order of the model',
-        'named deviation KeyColumnOrder: ascending lexicographic order under ANY priority of the key columns is accepted (the code sorts by '
-        'the key columns in alphabetical order of their names, not in the order of `on`)',
+        'keys are rendered by strictly monotone maps (int, "x%03d" string, date; with spellings: numbers, None below and NaN above every '
+        'number, days) so that "sorted by key" is the integer order of the model',
+        'which objects are one key is taken from pyg-base\'s own order of keys (cmp ranks them equal): int / float / numpy integer and float '
+        'scalars of one value, any two NaN, None, date / datetime / numpy.datetime64 of one midnight.  Spellings that cmp keeps apart although '
+        'Python calls them equal are NOT used as one key: bool vs int (True / 1), numpy.str_ vs str, pandas.Timestamp vs datetime',
+        'named deviation AnySpelling: which of the supplied spellings of its key a returned row carries is not pinned',
         'named deviation EmptyJoin: None / the supplied data object / an empty table all count as "zero rows"',
         'domain: expiries only on previously computed keys; all-scalar calls carry no data/expiry; when every table input has a default, '
         'previously computed keys lie inside the join (CacheInsideJoin); previously computed values are never None; expiries are at least '
